@@ -18,7 +18,7 @@ ESC_SEGS = ["%2E", "%2e%2E", ".%2E", "%2E%2Ea"]
 ALL_SEGS = LITERAL_SEGS + ESC_SEGS
 DOT = {".", "..", "%2E", "%2e%2E", ".%2E"}
 
-REQUOTE_ENTRIES = ["ctor", "ctor-noauth", "join", "join-rooted", "ctor-noauth-rootless", "join-noauth-base"]
+REQUOTE_ENTRIES = ["ctor", "ctor-noauth", "join", "join-rooted", "ctor-noauth-rootless", "join-noauth-base", "join-empty-base", "join-trailing-base", "join-root-base", "ctor-userinfo-port"]
 QUOTE_ENTRIES = ["build", "with_path", "with_path-noslash", "div", "div-trailing", "div-empty", "joinpath-splits", "build-noauth",
                  "div-noauth", "with_path-noauth", "ctor-encoded", "joinpath-encoded", "with_path-encoded"]
 
@@ -91,6 +91,13 @@ def check_path(ctx, backend, entry, segs, enumerated=False):
             if rel.startswith("/") or rel == "":
                 return
             results.append((URL("http://h/x/y?q").join(URL(rel)), ref.remove_dot_segments("/x/" + dec(rel)) or "/"))
+        elif entry in ("join-empty-base", "join-trailing-base", "join-root-base"):
+            if rel.startswith("/") or rel == "":
+                return
+            base, merged = {"join-empty-base": ("http://h", "/"), "join-trailing-base": ("http://h/x/", "/x/"), "join-root-base": ("http://u@h:81/?q#f", "/")}[entry]
+            results.append((URL(base).join(URL(rel)), ref.remove_dot_segments(merged + dec(rel)) or "/"))
+        elif entry == "ctor-userinfo-port":
+            results.append((URL("https://u:p@[::1]:443/" + rel + "?q#f"), ref.remove_dot_segments(dec("/" + rel)) or "/"))
         elif entry == "join-rooted":
             if rel.startswith("/"):
                 return
